@@ -54,6 +54,9 @@ func (r *run) loadFrom(addr value) value {
 				r.traceEvent("rd:" + loc)
 			}
 		}
+		if len(r.pooled) > 0 && r.pooled[p] {
+			r.pooledHit()
+		}
 		return copyVal(*p)
 	case *symptr:
 		var res *Term
@@ -83,6 +86,9 @@ func (r *run) storeTo(addr value, v value) {
 		}
 		if label, ok := r.frozen[p]; ok {
 			r.frozenHit(label)
+		}
+		if len(r.pooled) > 0 && r.pooled[p] {
+			r.pooledHit()
 		}
 		if loc, ok := r.watch[p]; ok {
 			// a map stored into a watched location is watched under its name
@@ -123,7 +129,15 @@ func (r *run) unop(instr *ssa.UnOp, x value) value {
 	case token.XOR:
 		return bvNot(x.(*Term))
 	case token.ARROW:
-		panic(engineError{"channel receive unsupported"})
+		ch, ok := x.(*schan)
+		if !ok || ch == nil {
+			panic(engineError{"channel receive on a channel the engine does not model"})
+		}
+		v, got := r.chanRecv(ch, instr.X.Type().Underlying().(*types.Chan).Elem())
+		if instr.CommaOk {
+			return tuple{v, mkBool(got)}
+		}
+		return v
 	}
 	panic(engineError{fmt.Sprintf("invalid unary op %s %T", instr.Op, x)})
 }
@@ -558,7 +572,9 @@ func (r *run) conv(tDst, tSrc types.Type, x value) value {
 					if !ok {
 						panic(engineError{"string->[]rune with symbolic bytes"})
 					}
-					var res []value
+					// capacity = length (the runtime may round the capacity up to a
+					// size class; slicing beyond the length is treated as out of range)
+					res := make([]value, 0, utf8.RuneCountInString(s))
 					for _, c := range s {
 						res = append(res, mkBV(32, uint64(c)))
 					}
@@ -702,7 +718,11 @@ func (r *run) callBuiltin(caller *frame, callpos token.Pos, fn *ssa.Builtin, arg
 		return mkBV(64, uint64(n))
 
 	case "close":
-		panic(engineError{"close(chan) unsupported"})
+		if ch, ok := args[0].(*schan); ok && ch != nil {
+			ch.closed = true
+			return nil
+		}
+		panic(engineError{"close(chan) on a channel the engine does not model"})
 
 	case "delete":
 		m := args[0].(*smap)
